@@ -100,6 +100,12 @@ func FindAnchors(prog *Program) *Anchors {
 	for _, f := range cands {
 		sig := f.Signature
 		p0 := first(sig)
+		// matchers written as methods of an operand type: func (m operands) equal() (bool, error)
+		if p0 == nil && f.Parent() == nil && isBoolErr(sig) && sig.Recv() != nil {
+			if ef, vf := operandFields(sig.Recv().Type()); ef != "" && vf != "" {
+				a.Matchers = append(a.Matchers, f)
+			}
+		}
 		if p0 == nil || f.Parent() != nil {
 			continue
 		}
@@ -259,4 +265,68 @@ func refineMatchers(prog *Program, cands []*ssa.Function) []*ssa.Function {
 		}
 	}
 	return res
+}
+
+// operandFields: for a struct type (or pointer to one) that carries the two operands of a matcher — a
+// *grammar.MatchExpression and a reflect.Value — the names of those two fields.
+func operandFields(t types.Type) (exprField, valueField string) {
+	if p, ok := t.Underlying().(*types.Pointer); ok {
+		t = p.Elem()
+	}
+	st, ok := t.Underlying().(*types.Struct)
+	if !ok {
+		return "", ""
+	}
+	for i := 0; i < st.NumFields(); i++ {
+		ft := st.Field(i).Type()
+		switch {
+		case namedIs(ft, grammarPath, "MatchExpression"):
+			exprField = st.Field(i).Name()
+		case namedIs(ft, "reflect", "Value"):
+			valueField = st.Field(i).Name()
+		}
+	}
+	return
+}
+
+// matcherOperands: the symbols of the expression and the value a matcher works on: its last two parameters, or the two
+// operand fields of its receiver.
+func matcherOperands(m *ssa.Function) (expr, value *Sym) {
+	if rv := m.Signature.Recv(); rv != nil && m.Signature.Params().Len() == 0 && len(m.Params) == 1 {
+		ef, vf := operandFields(rv.Type())
+		recv := paramSym(m.Params[0])
+		if _, isPtr := rv.Type().Underlying().(*types.Pointer); isPtr {
+			return loadField(recv, ef), loadField(recv, vf)
+		}
+		return &Sym{K: sField, A: recv, Str: ef}, &Sym{K: sField, A: recv, Str: vf}
+	}
+	n := len(m.Params)
+	if n < 2 {
+		return nil, nil
+	}
+	return paramSym(m.Params[n-2]), paramSym(m.Params[n-1])
+}
+
+// matcherCallOperands: the expression and the value handed to a matcher at a call.
+func matcherCallOperands(st *pstate, ev *Event) (expr, value *Sym) {
+	m := ev.Callee
+	if m == nil {
+		return nil, nil
+	}
+	if rv := m.Signature.Recv(); rv != nil && m.Signature.Params().Len() == 0 && len(ev.Args) == 1 {
+		ef, vf := operandFields(rv.Type())
+		recv := ev.Args[0]
+		if recv.K == sStruct {
+			return getPath(recv, []string{ef}), getPath(recv, []string{vf})
+		}
+		if len(ev.Deref) > 0 && ev.Deref[0] != nil {
+			return getPath(ev.Deref[0], []string{ef}), getPath(ev.Deref[0], []string{vf})
+		}
+		return mkField(recv, ef), mkField(recv, vf)
+	}
+	n := len(ev.Args)
+	if n < 2 {
+		return nil, nil
+	}
+	return ev.Args[n-2], ev.Args[n-1]
 }
